@@ -96,6 +96,12 @@ def run(ctx):
         uni.paramset(ps)
     uni.paramset("P2048-custom", grp="I2048", M=b"m", N=b"n", S=b"s")
     sets.append(("P2048-custom", "I2048"))
+    # custom medium-size groups ("any valid prime-order group passed as parameters"): element and scalar widths that
+    # are neither toy nor shipped (9/5 bytes, 16/8 bytes, 33/32 bytes)
+    for name, (qb, pb) in (("m72", (40, 72)), ("m128", (64, 128)), ("m264", (256, 264))):
+        uni.int_group(name, *medium_group(qb, pb, 1 + ctx.seed % 3))
+        uni.paramset("P" + name, grp=name)
+        sets.append(("P" + name, name))
     for ps, g in sets:
         q = uni.group(g).order()
         edge = [0, 1, 2, q - 1, q - 2, (q - 1) // 2, (q + 1) // 2, 2 ** 64]
